@@ -9,7 +9,8 @@ Menu(n) == IF n = 1 THEN {[off |-> 0, size |-> s, al |-> a, bl |-> b, pat |-> On
            ELSE IF n = 2 THEN {[off |-> o, size |-> s, al |-> a, bl |-> 2, pat |-> None] : o \in {0, 1, 3}, s \in {0, 3}, a \in {1, 2}}
            ELSE {[off |-> o, size |-> s, al |-> 1, bl |-> b, pat |-> p] : o \in {0, 2, 4}, s \in {0, 2}, b \in {0, 1}, p \in {None, Ones}}
 Level == atoi(IOEnv.MC_LEVEL)
-G == TLCGet("level") < Level                 \* depth bound inside the actions: no successors are generated beyond it
+VARIABLE lvl                                 \* number of steps taken (a state variable, so that the bound does not depend on TLC's search order)
+G == lvl < Level /\ lvl' = lvl + 1           \* depth bound inside the actions: no successors are generated beyond it
 MCNew == /\ G /\ act.a \in {"Init", "New"}
          /\ \E m \in Menu(Len(forest) + 1) : New(m.off, m.size, m.al, DataOf(m.bl), m.pat)
 MCSetSize == G /\ \E n \in Ids(forest) : \E s \in {0, 5} : SetSize(n, s)
@@ -18,5 +19,5 @@ MCAppend == G /\ DoAppend
 MCJoin == G /\ DoJoin
 MCUpdateOffsets == G /\ DoUpdateOffsets
 MCNext == MCNew \/ MCAdd \/ MCAppend \/ MCSetSize \/ MCJoin \/ MCUpdateOffsets
-MCSpec == Init /\ [][MCNext]_vars
+MCSpec == Init /\ lvl = 0 /\ [][MCNext]_<<vars, lvl>>
 =============================================================================
